@@ -5,6 +5,8 @@ import (
 	"runtime"
 	"sort"
 	"sync"
+
+	"github.com/deepteams/webp/internal/verifhook"
 )
 
 // VP8L histogram clustering for lossless encoding.
@@ -1271,6 +1273,7 @@ func histogramRemap(origHistos []*Histogram, imageHisto *HistoSet,
 				if end > n {
 					end = n
 				}
+				verifhook.Range("histo-symbols", 0, n, w, numWorkers, start, end)
 				go func(start, end int) {
 					defer wg.Done()
 					for i := start; i < end; i++ {
@@ -1374,6 +1377,7 @@ func parallelComputeHistogramCost(histos []*Histogram) {
 		if end > n {
 			end = n
 		}
+		verifhook.Range("histo-cost", 0, n, w, numWorkers, start, end)
 		go func(start, end int) {
 			defer wg.Done()
 			for i := start; i < end; i++ {
